@@ -6,7 +6,7 @@ from harness.core import cbool, clist, copt, cq, cz, czlist
 ID = "C07"
 MODEL_TARGETS = ["C07/Cases.vo"]
 PROOF_TARGETS = ["C01/Gen.vo", "C01/Bridge.vo", "C01/Proofs.vo", "C07/Site.vo", "C07/Bridge.vo",
-                 "C07/Proofs.vo"]
+                 "C07/Proofs.vo", "C07/FitParams.vo"]
 OBLIGATION_FILES = ["C07/Bridge.v"]
 PROPS_FILE = "C07/Props.v"
 SHARD = 60
@@ -19,8 +19,10 @@ RULE = ("random evaluate() runs: series of small positive integers (n <= 26, ind
         "(default None and explicit), MAPE(symmetric=False), MAE, MSE, and make_forecasting_scorer "
         "around the asymmetric mean(2*y_true - y_pred); forecaster = a recording test double (forecast "
         "is an integer function of the first and latest window received since fit, the number of "
-        "windows, the step and the exogenous rows; every call is logged) or the real NaiveForecaster "
-        "(last / mean / mean with window_length). non-trivial = accepted run with >= 2 folds; "
+        "windows, the step, the exogenous rows and the `boost` keyword of its last fit; every call is "
+        "logged with its keyword arguments) or the real NaiveForecaster "
+        "(last / mean / mean with window_length); fit_params None / {} / {'boost': k} (k in -4..6, 45% "
+        "of the runs with the double). non-trivial = accepted run with >= 2 folds; "
         "distinct = distinct canonical JSON case")
 TRUSTED = [
     "translator/evalsite_c07.py (Python ast -> Gallina fold step of evaluate() and position "
@@ -39,7 +41,11 @@ MODELLED = [
     "the float results to 1e-9 relative",
     "NaiveForecaster(last/mean) under update(): modelled as combine_first of the windows followed by "
     "a refit (label-based last window), tied by correspondence only",
-    "wall-clock columns fit_time / pred_time are ignored; fit_params is not exercised",
+    "wall-clock columns fit_time / pred_time are ignored",
+    "fit_params: the dict is coded by one integer (the recording double's `boost` fit keyword, which "
+    "shifts its forecasts until the next fit); None and {} are the same `no keyword`; only the "
+    "double accepts fit keywords (sktime 0.6.0 forecasters take none), so fit_params are generated "
+    "for the double only",
 ]
 NOT_RUNNABLE = []
 
@@ -75,7 +81,8 @@ def double_class():
 
     class RecordingForecaster(_OptionalForecastingHorizonMixin, _SktimeForecaster):
         """forecast(t) = a*last(latest window) + b*sum(latest window) + c*first(first window since
-        fit) + d*(number of windows since fit) + e*(t - cutoff) + X_test[t] + sum(latest X_train)."""
+        fit) + d*(number of windows since fit) + e*(t - cutoff) + X_test[t] + sum(latest X_train)
+        + boost (keyword of the last fit, 0 if not given)."""
 
         def __init__(self, a=1, b=0, c=0, d=0, e=0, tag=0):
             self.a, self.b, self.c, self.d, self.e, self.tag = a, b, c, d, e, tag
@@ -84,12 +91,15 @@ def double_class():
         def _key(self):
             return [self.a, self.b, self.c, self.d, self.e, self.tag]
 
-        def fit(self, y, X=None, fh=None):
+        def fit(self, y, X=None, fh=None, boost=None):
             self._set_y_X(y, X)
             self._set_fh(fh)
+            # the keyword arguments this fit received (fit_params of evaluate): logged as given
+            self.boost_ = 0 if boost is None else boost
             LOG.append({"who": self._key(), "op": "fit", "y": _ydump(y), "X": _xdump(X),
                         "fh": None if fh is None else [int(t) for t in self.fh.to_absolute(
-                            self.cutoff).to_pandas()]})
+                            self.cutoff).to_pandas()],
+                        "kw": {} if boost is None else {"boost": boost}})
             self.first_ = [float(v) for v in y.to_numpy()]
             self.latest_ = list(self.first_)
             self.count_ = 1
@@ -111,7 +121,7 @@ def double_class():
             times = [int(t) for t in fh.to_absolute(self.cutoff).to_pandas()]
             LOG.append({"who": self._key(), "op": "predict", "fh": times, "X": _xdump(X)})
             base = (self.a * self.latest_[-1] + self.b * sum(self.latest_) + self.c * self.first_[0]
-                    + self.d * self.count_ + self.xsum_)
+                    + self.d * self.count_ + self.xsum_ + self.boost_)
             xt = {} if X is None else {int(t): float(v)
                                        for t, v in zip(X.index, X.iloc[:, 0].to_numpy())}
             vals = [base + self.e * (t - int(self.cutoff)) + xt.get(t, 0.0) for t in times]
@@ -219,8 +229,11 @@ def run_impl(case):
         cv = make_cv(case["splitter"])
         f = make_forecaster(case["fc"])
         del LOG[:]
+        kw = {}
+        if "fit_params" in case:
+            kw["fit_params"] = case["fit_params"]
         res = evaluate(f, cv, y, X=X, strategy=case["strategy"],
-                       scoring=make_metric(case["metric"]), return_data=case["return_data"])
+                       scoring=make_metric(case["metric"]), return_data=case["return_data"], **kw)
     except (ValueError, TypeError) as e:
         return {"err": type(e).__name__}
     col = METRIC_COLUMN[case["metric"]]
@@ -323,10 +336,12 @@ class RefForecaster:
         self.fc = fc
         self.first = self.latest = self.merged = None
         self.cnt = 0
+        self.boost = 0
         self.xsum = Fraction(0)
 
-    def fit(self, y, x):
+    def fit(self, y, x, boost=0):
         self.first = self.latest = self.merged = list(y)
+        self.boost = boost
         self.cnt = 1
         self.xsum = sum((v for _, v in x), Fraction(0)) if x is not None else Fraction(0)
 
@@ -348,7 +363,7 @@ class RefForecaster:
         if fc["type"] == "double":
             a, b, c, d, e = fc["k"]
             base = (a * self.latest[-1][1] + b * sum(v for _, v in self.latest)
-                    + c * self.first[0][1] + d * self.cnt + self.xsum)
+                    + c * self.first[0][1] + d * self.cnt + self.xsum + self.boost)
             xt = dict(x) if x is not None else {}
             return [base + e * (t - cut) + xt.get(t, 0) for t in fhabs]
         if fc["strategy"] == "last":
@@ -379,8 +394,10 @@ def ref_eval(case):
         if i == 0 or case["strategy"] == "refit":
             if case["strategy"] == "refit":
                 f = make_ref(case["fc"])      # honest: a forecaster that knows nothing else
-            f.fit(ytr, xtr)
-            trace.append({"op": "fit", "y": ytr, "X": xtr, "fh": fhabs})
+            # honest: EVERY fit is given the fit_params
+            fkw = dict(case.get("fit_params") or {})
+            f.fit(ytr, xtr, **fkw)
+            trace.append({"op": "fit", "y": ytr, "X": xtr, "fh": fhabs, "kw": fkw})
         else:
             f.update(ytr, xtr)
             trace.append({"op": "update", "y": ytr, "X": xtr})
@@ -464,6 +481,10 @@ def oracle(case, out):
                         w["X"] is not None and not _same_series(c["X"], w["X"])):
                     return "exog-train-slice: fold %d %s got %s expected %s" % (
                         fold, c["op"], c["X"], _fmt(w["X"]))
+            if c["op"] == "fit" and c.get("kw", {}) != w["kw"]:
+                return "fit-params-not-passed-to-every-fit: fold %d fit received keyword " \
+                       "arguments %s, evaluate() was given fit_params=%s" % (
+                           fold, c.get("kw", {}), case.get("fit_params"))
             if c["op"] in ("fit", "predict") and c["fh"] != w["fh"]:
                 return "horizon-not-the-test-times: fold %d %s got %s expected %s" % (
                     fold, c["op"], c["fh"], w["fh"])
@@ -553,11 +574,16 @@ def gen_cases(rng, tier):
         n = min(n, 26)
         spl = ref_splits(sp, n)
         minlen = min([len(tr) for tr, _ in spl] or [1]) if spl else 1
-        cases.append({"kind": "eval", "splitter": sp, "off": rng.choice([0, 0, 3, 7]),
-                      "y": [rng.randint(1, 9) for _ in range(n)],
-                      "X": [rng.randint(-3, 6) for _ in range(n)] if rng.random() < 0.4 else None,
-                      "strategy": rng.choice(["refit", "update"]), "metric": rng.choice(METRICS),
-                      "fc": rand_forecaster(rng, minlen), "return_data": rng.random() < 0.35})
+        c = {"kind": "eval", "splitter": sp, "off": rng.choice([0, 0, 3, 7]),
+             "y": [rng.randint(1, 9) for _ in range(n)],
+             "X": [rng.randint(-3, 6) for _ in range(n)] if rng.random() < 0.4 else None,
+             "strategy": rng.choice(["refit", "update"]), "metric": rng.choice(METRICS),
+             "fc": rand_forecaster(rng, minlen), "return_data": rng.random() < 0.35}
+        # fit_params: None / {} / a keyword the double's fit accepts and that changes its forecasts
+        u = rng.random()
+        c["fit_params"] = None if u < 0.4 else {} if u < 0.55 else (
+            {"boost": rng.choice([-4, -2, -1, 1, 2, 3, 6])} if c["fc"]["type"] == "double" else {})
+        cases.append(c)
     if tier == "thorough":
         cases += exhaustive_cases()
     return cases
@@ -627,6 +653,14 @@ def shrink(case):
         d = dict(c)
         d["return_data"] = False
         yield d
+    if c.get("fit_params"):
+        d = dict(c)
+        d["fit_params"] = None
+        yield d
+        if c["fit_params"].get("boost") not in (None, 1):
+            d = dict(c)
+            d["fit_params"] = {"boost": 1}
+            yield d
     if c["fc"]["type"] == "double" and c["fc"]["k"] != [1, 0, 0, 0, 0]:
         k = c["fc"]["k"]
         for i in range(5):
@@ -681,6 +715,10 @@ def c_xdata(lst):
 
 def c_call(c):
     if c["op"] == "fit":
+        if c.get("kw"):
+            return "(FitP %s %s %s %s)" % (c_ydata(c["y"]), c_xdata(c["X"]),
+                                           czlist(c["fh"] if c["fh"] is not None else []),
+                                           cz(c["kw"]["boost"]))
         return "(Fit %s %s %s)" % (c_ydata(c["y"]), c_xdata(c["X"]),
                                    czlist(c["fh"] if c["fh"] is not None else []))
     if c["op"] == "update":
@@ -721,10 +759,19 @@ def coq_case(case, out):
         o = "(Some (%s, %s))" % (clist(rows),
                                  "None" if tr is None else "(Some %s)" % clist([c_call(c)
                                                                                 for c in tr]))
+    if "fit_params" in case:
+        return "CEvalP %s %s %s" % (c_fp(case), c_args(case), o)
     return "CEval %s %s" % (c_args(case), o)
 
 
+def c_fp(case):
+    fp = case.get("fit_params") or {}
+    return "(Some %s)" % cz(fp["boost"]) if "boost" in fp else "None"
+
+
 def coq_model_term(case):
+    if "fit_params" in case:
+        return "model_eval_fp %s %s" % (c_fp(case), c_args(case))
     return "model_eval %s" % c_args(case)
 
 
@@ -743,4 +790,6 @@ def distribution(cases, results):
                          else "naive-" + c["fc"]["strategy"])] += 1
             d["X=%s" % (c.get("X") is not None)] += 1
             d["return_data=%s" % c["return_data"]] += 1
+            fp = c.get("fit_params")
+            d["fit_params=%s" % ("None" if fp is None else "{}" if not fp else "keyword")] += 1
     return dict(d)
